@@ -1,6 +1,6 @@
 ENTRY = dict(
     gen=["parrots"],
-    runner="C12", pkg="./cmd/c12", corr=["Corr.C12Corr"], n=dict(quick=910, thorough=5500), runner_timeout=900,
+    runner="C12", pkg="./cmd/c12", corr=["Corr.C12Corr"], n=dict(quick=940, thorough=5850), runner_timeout=900,
     rule="every predefined parrot (38 ClientHelloIDs accepted by UTLSIdToSpec) over loopback TCP against the scripted server "
          "(verif_server.go), which forces ONE selection at a time drawn at run time from the complement of that very connection's "
          "parsed wire ClientHello: TLS 1.3 suite (implemented-but-unoffered, another GREASE value, unimplemented CCM suite, a TLS 1.2 "
@@ -14,7 +14,7 @@ ENTRY = dict(
          "share, else cookie only), also for HelloGolang via UClient; (b) stale offers: one HelloCustom UConn re-preset with a different spec "
          "(ApplyPreset A, BuildHandshakeStateWithoutSession, ApplyPreset B) and parrots whose uc.Extensions / Hello the caller edits after "
          "BuildHandshakeState (compress_certificate, ALPN, key_share entries or the whole extension, supported_groups entries or the whole "
-         "extension, suites): the server selects a value the EARLIER hello offered and the one on the wire does not; (c) resumption: a session "
+         "extension, suites, legacy_session_id cleared so the hello goes out with an EMPTY id - also HelloGolang): the server selects a value the EARLIER hello offered and the one on the wire does not; (c) resumption: a session "
          "with suite 0xc009 from a real first connection handed with SetSessionState (or through the cache) to clients that do not offer it, "
          "resumed by the server; own-session ticket resumption; TLS 1.3 PSK accepted under a suite of another hash; (d) hellos whose only key share is a "
          "hybrid one (the server answers X25519 with the classical half of that share as client key), classical-only / second-share-only subsets, every "
